@@ -1,3 +1,4 @@
 -- root of the library: every model, lemma and property file
 import Cstl.Base.Driver
 import Cstl.SList.Model
+import Cstl.SList.Props
